@@ -6,6 +6,7 @@ query is an integer point of the model; the model's ray ends at W = -180 * SCALE
 """
 import json
 import logging
+import re
 import math
 import os
 import sys
@@ -51,6 +52,18 @@ def boollist(bs):
 
 def C(p):
     return Coordinate(float(p[0]), float(p[1]))
+
+
+def hole_json(h):
+    if h[0] == 'poly':
+        return ['poly', [[str(x), str(y)] for x, y in h[1]], bool(h[2])]
+    return ['box', [str(h[1][0]), str(h[1][1])], [str(h[2][0]), str(h[2][1])]]
+
+
+def hole_unjson(j):
+    if j[0] == 'poly':
+        return ('poly', [(F(x), F(y)) for x, y in j[1]], j[2])
+    return ('box', (F(j[1][0]), F(j[1][1])), (F(j[2][0]), F(j[2][1])))
 
 
 def outline_of(poly):
@@ -200,7 +213,7 @@ def main():
     GX = (-1, 9, -1, 9)
     gpts = grid_points(*GX)
 
-    def grid_case(name, ring, rot, rev, closed, holes):
+    def grid_case(name, ring, rot, rev, closed, holes, GX=GX, gpts=gpts):
         nonlocal n_eval
         raw = variant(ring, rot, rev, closed)
         poly, hm = mk_poly(raw, holes)
@@ -233,7 +246,7 @@ def main():
             f'{zlit(GX[0] * SCALE)} {zlit(GX[1] * SCALE)} {zlit(GX[2] * SCALE)} {zlit(GX[3] * SCALE)} '
             f'{boollist(o1)} {boollist(o2)}',
             {'k': 'grid', 'ring': name, 'outline': [[str(x), str(y)] for x, y in ring], 'rot': rot, 'rev': rev, 'closed': closed,
-             'holes': [str(h) for h in holes], 'grid': GX, 'raw': [[str(x), str(y)] for x, y in raw]})
+             'holes': [hole_json(h) for h in holes], 'grid': GX, 'raw': [[str(x), str(y)] for x, y in raw]})
         ck.count('grid:' + ('holes' if holes else 'plain'))
 
     for name, ring in rings:
@@ -243,6 +256,20 @@ def main():
             variants = [(0, False)] + rng.sample(variants[1:], 2)
         for j, (rot, rev) in enumerate(variants):
             grid_case(name, ring, rot, rev, closed=(j % 2 == 0), holes=[])
+    # rings touching the antimeridian from the east (vertices and queries at longitude -180 = the ray's end)
+    WEST = [('west-square', [(-180, 0), (-176, 0), (-176, 4), (-180, 4)]),
+            ('west-diamond', [(-180, 2), (-178, 0), (-176, 2), (-178, 4)]),
+            ('west-notch', [(-180, 0), (-176, 0), (-176, 4), (-180, 4), (-178, 2)]),
+            ('west-tri', [(-180, 1), (-176, 0), (-177, 4)])]
+    GXW = (-180, -175, -1, 5)
+    gptsw = grid_points(*GXW)
+    for name, ring in WEST:
+        n = len(ring)
+        variants = [(rot, rev) for rot in range(n) for rev in (False, True)]
+        if not thorough:
+            variants = [(0, False), rng.choice(variants[1:])]
+        for j, (rot, rev) in enumerate(variants):
+            grid_case(name, ring, rot, rev, closed=(j % 2 == 0), holes=[], GX=GXW, gpts=gptsw)
     # holes: 0..2 holes (polygon and box holes) in the hosts
     hosts = [(nm, r) for nm, r in FIXED_RINGS if nm in HOLE_HOSTS]
     combos = [[h] for h in HOLE_LIB] + [[HOLE_LIB[0], HOLE_LIB[4]], [HOLE_LIB[5], HOLE_LIB[2]], [HOLE_LIB[3], HOLE_LIB[4]],
@@ -272,7 +299,7 @@ def main():
                     prop_bad.append((i, {'query': [str(q[0]), str(q[1])], 'contains_coordinate': b, 'exact_reference': want}))
             add(f'KBoxGrid {zlit(W)} {ptlit(nw)} {ptlit(se)} {listlit([holelit(m) for _, m in hobj])} '
                 f'{zlit(GX[0] * SCALE)} {zlit(GX[1] * SCALE)} {zlit(GX[2] * SCALE)} {zlit(GX[3] * SCALE)} {boollist(outs)}',
-                {'k': 'box', 'nw': nw, 'se': se, 'holes': [str(h) for h in hs], 'grid': GX})
+                {'k': 'box', 'nw': [str(nw[0]), str(nw[1])], 'se': [str(se[0]), str(se[1])], 'holes': [hole_json(h) for h in hs], 'grid': GX})
             ck.count('box')
 
     # ---------------------------------------------------------------- random star-shaped polygons, integer coordinates <= 1000
@@ -323,7 +350,7 @@ def main():
         add(f'KPts {zlit(W2)} {ringlit(stored, S2)} {listlit([holelit(m, S2) for m in hm])} '
             + listlit([f'({ptlit(q, S2)}, {blit(a)}, {blit(b)})' for q, a, b in outs]),
             {'k': 'pts', 'ring': f'rstar{k}', 'outline': [[str(x), str(y)] for x, y in ring], 'rot': rot, 'rev': rev,
-             'raw': [[str(x), str(y)] for x, y in raw], 'holes': [str(h) for h in holes],
+             'raw': [[str(x), str(y)] for x, y in raw], 'holes': [hole_json(h) for h in holes], 'scale': S2,
              'queries': [[str(q[0]), str(q[1]), a, b] for q, a, b in outs]})
         ck.count('random-star')
 
@@ -409,17 +436,56 @@ def main():
 
 
 def replay(path):
+    """rebuild the input from its constructor-level description, call the implementation, the exact
+    reference and (through coqc) the model, and print the three answers"""
+    import subprocess
+    import tempfile
+    from lib import COQ
     r = json.load(open(path))
     m = r.get('case') or {}
-    print(json.dumps({k: v for k, v in r.items() if k != 'gallina_case'}, indent=1)[:3000])
-    if m.get('k') in ('grid', 'pts') and 'raw' in m:
+    print(json.dumps({k: v for k, v in r.items() if k not in ('gallina_case', 'all_failing_queries_of_case')}, indent=1)[:2500])
+    qs = [r['failing_query']['query']] if 'failing_query' in r else []
+    if not qs and m.get('k') == 'pts':
+        qs = [q[:2] for q in m.get('queries', [])][:10]
+    if not qs and 'grid' in m:
+        g = m['grid']
+        qs = [[str(x), str(y)] for x, y in grid_points(*g)]
+    scale = m.get('scale', SCALE)
+    w = -180 * scale
+    holes = [hole_unjson(h) for h in m.get('holes', [])]
+    if m.get('k') in ('grid', 'pts'):
         raw = [(F(x), F(y)) for x, y in m['raw']]
         ring = [(F(x), F(y)) for x, y in m['outline']]
-        poly = GeoPolygon([C(v) for v in raw])
-        qs = [r['failing_query']['query']] if 'failing_query' in r else []
-        for q in qs:
-            q = (F(q[0]), F(q[1]))
-            print('query', q, 'implementation now:', poly.contains_coordinate(C(q)), '(holes omitted) exact reference:', ref_ring(q, ring))
+        obj, hm = mk_poly(raw, holes)
+        model = f'poly_contains {zlit(w)} {ringlit(outline_of(obj), scale)} {listlit([holelit(h, scale) for h in hm])}'
+        ref = lambda q: ref_poly(q, ring, holes)                                 # noqa: E731
+    elif m.get('k') == 'box':
+        nw, se = (F(m['nw'][0]), F(m['nw'][1])), (F(m['se'][0]), F(m['se'][1]))
+        hobj = [mk_hole(h) for h in holes]
+        obj = GeoBox(C(nw), C(se), holes=[o for o, _ in hobj] or None)
+        model = f'box_contains {zlit(w)} {ptlit(nw, scale)} {ptlit(se, scale)} {listlit([holelit(h, scale) for _, h in hobj])}'
+        ref = lambda q: ref_box(q, nw, se, holes)                                # noqa: E731
+    else:
+        return
+    qs = [(F(q[0]), F(q[1])) for q in qs]
+    with tempfile.TemporaryDirectory() as td:
+        fn = os.path.join(td, 'replay.v')
+        with open(fn, 'w') as f:
+            f.write(IMPORTS + '\n')
+            f.write('Eval vm_compute in map (' + model + ') ' + listlit([ptlit(q, scale) for q in qs]) + '.\n')
+        out = subprocess.run(['coqc', '-Q', os.path.join(COQ, 'theories'), 'GV', fn], cwd=td, stdout=subprocess.PIPE,
+                             stderr=subprocess.STDOUT, text=True, timeout=300).stdout
+    mvals = re.findall(r'\b(true|false)\b', out.split(':')[0]) if '=' in out else []
+    shown = 0
+    for k, q in enumerate(qs):
+        impl = obj.contains_coordinate(C(q))
+        mv = mvals[k] if k < len(mvals) else '?'
+        want = ref(q)
+        if len(qs) <= 12 or impl != want or str(impl).lower() != mv:
+            print(f'query ({q[0]}, {q[1]}): implementation now = {impl}; model = {mv}; exact even-odd/boundary reference = {want}')
+            shown += 1
+    if not shown:
+        print(f'{len(qs)} queries: implementation, model and exact reference agree on all of them now')
 
 
 if __name__ == '__main__':
